@@ -1,9 +1,189 @@
 import KG.Base.Json
-/-! Driver entry points for property C13 (filled in by the C13 model). -/
+import KG.Spec.Shard
+/-! Driver entry points for property C13 (sharding and leadership guard). Byte strings travel as hex. -/
 namespace KG.Driver.C13
-open Lean
+open Lean KG KG.Model.Shard KG.Spec.Shard KG.Model.Shard.Concrete
+
+def optStr : Option Str → Json
+  | some s => J.hex s
+  | none => Json.null
+
+def shardRes : Except String Int → Json
+  | .ok s => J.int s
+  | .error _ => Json.str "panic"
+
+def gwRes {α : Type} (f : α → Json) : GwRes α → Json
+  | .panic => J.obj [("k", Json.str "panic")]
+  | .notSynced => J.obj [("k", Json.str "notSynced")]
+  | .noLeader s => J.obj [("k", Json.str "noLeader"), ("shard", J.int s)]
+  | .ok a => J.obj [("k", Json.str "ok"), ("v", f a)]
+
+def sortOn {α : Type} (key : α → String) (l : List α) : List α := l.mergeSort (fun a b => key a ≤ key b)
+def sortInt {α : Type} (key : α → Int) (l : List α) : List α := l.mergeSort (fun a b => key a ≤ key b)
+
+/-- `C13.shard {names:[hex], n}`: `GetShardID` of every name (or "panic"), plus the spec value for 1 ≤ n < 2^32. -/
+def doShard (a : Json) : Except String Json := do
+  let names ← J.getHexList a "names"
+  let n ← J.getInt a "n"
+  pure <| J.obj [
+    ("shards", Json.arr (names.map fun x => shardRes (getShardID x n)).toArray),
+    ("spec", if 1 ≤ n ∧ n < 4294967296 then Json.arr (names.map fun x => J.nat (shardSpec x n.toNat)).toArray else Json.null),
+    ("wire", J.int (toI32 n))]
+
+def decodeEndpoints (a : Json) (k : String) : Except String (AList Str) := do
+  (← J.getArr a k).toList.mapM fun e => do
+    let p ← e.getArr?
+    match p.toList with
+    | [s, l] => pure ((← s.getInt?), (← J.asHex l))
+    | _ => throw "endpoint: want [shard, hexleader]"
+
+def encodeEndpoints (l : AList Str) : Json :=
+  Json.arr ((sortInt (·.1) l).map fun p => Json.arr #[J.int p.1, J.hex p.2]).toArray
+
+/-- `C13.gateway {shardCount, endpoints:[[shard,hex]], names:[hex], sync?:{n, leaders:[[shard,hex]]}}`:
+    optionally first `sync` with the `ServerInfo` of a server that has `n` shards and these leaders, then
+    `ShardIDFor` / `ClientFor` of every name; also what the server itself computes for the names. -/
+def doGateway (a : Json) : Except String Json := do
+  let names ← J.getHexList a "names"
+  let g0 : Gw := { shardCount := ← J.getInt a "shardCount", leaderEndpoints := ← decodeEndpoints a "endpoints" }
+  let (g, srv) ← match J.optObj a "sync" with
+    | none => pure (g0, Json.null)
+    | some s => do
+      let n ← J.getInt s "n"
+      let leaders ← decodeEndpoints s "leaders"
+      -- leaderInfo is a Go map: later entries of the list overwrite earlier ones
+      let leaders := leaders.foldl (fun acc p => AList.set acc p.1 p.2) ([] : AList Str)
+      let info : ServerInfo := { shardCount := toI32 n, endpoints := leaders.map fun p => { shardID := toI32 p.1, leader := p.2 } }
+      pure (gwSync info g0, J.obj [("shards", Json.arr (names.map fun x => shardRes (getShardID x n)).toArray)])
+  pure <| J.obj [
+    ("shardCount", J.int g.shardCount),
+    ("endpoints", encodeEndpoints g.leaderEndpoints),
+    ("shardIDFor", Json.arr (names.map fun x => gwRes J.int (shardIDFor g x)).toArray),
+    ("clientFor", Json.arr (names.map fun x => gwRes J.hex (clientFor g x)).toArray),
+    ("server", srv)]
+
+def decodeOp (j : Json) : Except String Op := do
+  let k ← J.getStr j "op"
+  match k with
+  | "gain" => pure (.gain (← J.getInt j "s"))
+  | "lose" => pure (.lose (← J.getInt j "s"))
+  | "newLeader" => pure (.newLeader (← J.getInt j "s") (← J.getHex j "id"))
+  | "leaderCheck" => pure .leaderCheck
+  | "listerAdd" => pure (.listerAdd (← J.getHex j "u"))
+  | "listerDel" => pure (.listerDel (← J.getHex j "u"))
+  | "clusterUpdate" => pure (.clusterUpdate (← J.getHex j "u"))
+  | "allocate" => pure (.allocate (← J.getHex j "u") (← J.getHex j "inst"))
+  | "acquire" => pure (.acquire (← J.getHex j "u") (← J.getHex j "inst") (← J.getInt j "tokens"))
+  | "deleteCond" => pure (.deleteCond (← J.getInt j "k") (← J.getHex j "u") (← J.getHex j "name") (← J.getHex j "inst"))
+  | _ => throw s!"unknown op {k}"
+
+def encodeRes : CRes → Json
+  | .updOk => J.obj [("r", Json.str "updOk")]
+  | .updNotFound => J.obj [("r", Json.str "updNotFound")]
+  | .acq ac l e => J.obj [("r", Json.str "acq"), ("accept", J.bool ac), ("limit", J.int l), ("err", Json.str e)]
+
+def encodeReply : Reply CRes → Json
+  | .refused s l => J.obj [("k", Json.str "refused"), ("shard", J.int s), ("leader", J.hex l)]
+  | .skipped s l => J.obj [("k", Json.str "skipped"), ("shard", J.int s), ("leader", J.hex l)]
+  | .skippedNoInstance => J.obj [("k", Json.str "skippedNoInstance")]
+  | .noStore s => J.obj [("k", Json.str "noStore"), ("shard", J.int s)]
+  | .served r => J.obj [("k", Json.str "served"), ("res", encodeRes r)]
+  | .handled none => J.obj [("k", Json.str "handled")]
+  | .handled (some e) => J.obj [("k", Json.str "handledErr"), ("err", Json.str e)]
+  | .deleted => J.obj [("k", Json.str "deleted")]
+  | .unit => J.obj [("k", Json.str "unit")]
+
+def encodeEntry (e : UEntry) : Json :=
+  J.obj [("u", J.hex e.name),
+         ("conds", Json.arr ((sortOn (·.1.toHex) e.conds).map fun p => Json.arr #[J.hex p.1, J.hex p.2]).toArray),
+         ("fc", J.bool e.hasFC),
+         ("inflight", Json.arr ((sortOn (·.1.toHex) e.inflight).map fun p => Json.arr #[J.hex p.1, J.int p.2]).toArray)]
+
+def encodeStores (l : AList CStore) : Json :=
+  Json.arr ((sortInt (·.1) l).map fun p =>
+    J.obj [("shard", J.int p.1), ("ups", Json.arr ((sortOn (·.name.toHex) p.2).map encodeEntry).toArray)]).toArray
+
+def decodeObs (j : Json) : Except String Obs := do
+  match (← J.getStr j "k") with
+  | "refused" => pure (.refusedNaming (← J.getInt j "shard") (← J.getHex j "leader"))
+  | "silent" => pure .silent
+  | _ => pure .other
+
+structure ImplObs where
+  obs : Obs
+  unchanged : Bool
+  storesAfter : List Int
+
+def decodeImpl (j : Json) : Except String ImplObs := do
+  pure { obs := ← decodeObs (← J.getObj j "obs"), unchanged := ← J.getBool j "unchanged",
+         storesAfter := ← J.getIntList j "storesAfter" }
+
+/-- `C13.history {me, n, storeType, lister:[hex], ops:[…], impl?:[{obs, unchanged, storesAfter}]}`: runs the
+    model over the history; per step: the model's answer, elector and store state after the step, the spec's
+    leader of the touched shard before the step, the judge on the model's own step and (if given) the judge on
+    the implementation's observation of the same step. -/
+def doHistory (a : Json) : Except String Json := do
+  let me ← J.getHex a "me"
+  let n ← J.getInt a "n"
+  let storeType ← J.getStr a "storeType"
+  let lister ← J.getHexList a "lister"
+  let opsL ← (← J.getArr a "ops").toList.mapM decodeOp
+  let impl ← match J.optObj a "impl" with
+    | none => pure none
+    | some _ => do pure (some (← (← J.getArr a "impl").toList.mapM decodeImpl))
+  if hn : toU32 n = 0 then throw "panic: shard count with uint32(n) = 0" else
+  let sops := Concrete.ops storeType
+  let st0 : Srv CStore := init me n hn lister
+  let sh : Str → Int := shardOf st0
+  let rec go (pre : List Op) (rest : List Op) (impls : Option (List ImplObs)) (st : Srv CStore) (acc : Array Json) : Array Json :=
+    match rest with
+    | [] => acc
+    | e :: rest' =>
+      let (st', r) := step sops st e
+      let unchangedM : Bool := decide (st'.stores = st.stores)
+      let storesAfterM := st'.stores.keys
+      let jm : Bool := decide (JudgeStep me sh pre e (obsOf r) (unchangedM = true) storesAfterM)
+      let (ji, impls') := match impls with
+        | some (o :: os) => (J.bool (decide (JudgeStep me sh pre e o.obs (o.unchanged = true) o.storesAfter)), some os)
+        | some [] => (Json.null, some [])
+        | none => (Json.null, none)
+      let u? : Option Str := match e with
+        | .allocate u _ | .acquire u _ _ | .clusterUpdate u | .deleteCond _ u _ _ => some u
+        | _ => none
+      let spec := match u? with
+        | some u => J.obj [("shard", J.int (sh u)), ("leader", optStr (leaderAfter me pre (sh u))),
+                           ("mustRefuse", J.bool (decide (leaderAfter me pre (sh u) ≠ some me)))]
+        | none => Json.null
+      let j := J.obj [("reply", encodeReply r), ("leaders", encodeEndpoints st'.leaders),
+                      ("stores", encodeStores st'.stores), ("lister", J.hexList st'.lister),
+                      ("spec", spec), ("judgeModel", J.bool jm), ("judgeImpl", ji)]
+      go (pre ++ [e]) rest' impls' st' (acc.push j)
+  pure <| J.obj [("steps", Json.arr (go [] opsL impl st0 #[]))]
+
+/-- `C13.k8s {shard, n, items:[hex], saves:[hex]}`: `objectStore.Load` keeps these upstreams' items;
+    `objectStore.Save` of a condition of each upstream in `saves`: "saved" | "refused" | "panic". -/
+def doK8s (a : Json) : Except String Json := do
+  let shard ← J.getInt a "shard"
+  let n ← J.getInt a "n"
+  let items ← J.getHexList a "items"
+  let saves ← J.getHexList a "saves"
+  let load := match k8sLoad shard n items with
+    | .ok l => J.hexList l
+    | .error _ => Json.str "panic"
+  let sv := saves.map fun u =>
+    match k8sSave (κ := Nat) shard n (· + 1) u 0 with
+    | .error _ => Json.str "panic"
+    | .ok none => Json.str "refused"
+    | .ok (some _) => Json.str "saved"
+  pure <| J.obj [("load", load), ("saves", Json.arr sv.toArray)]
 
 /-- `handle method args`: `none` when the method is unknown. -/
-def handle (_m : String) (_a : Json) : Option (Except String Json) := none
+def handle (m : String) (a : Json) : Option (Except String Json) :=
+  match m with
+  | "shard" => some (doShard a)
+  | "gateway" => some (doGateway a)
+  | "history" => some (doHistory a)
+  | "k8s" => some (doK8s a)
+  | _ => none
 
 end KG.Driver.C13
